@@ -181,13 +181,12 @@ func ruleTreeThresholds(c *Ctx, r *R) {
 		r.undecided("tree.btree.steal|missing", token.NoPos, "anchor not found")
 	}
 	mn, _ := constOf(c, treeRel, "minKVs")
-	// repair triggers
-	for _, name := range []string{"Delete", "mergeTwo"} {
-		fn := bt(c, name)
-		if fn == nil {
-			r.undecided("tree.btree."+name+"|missing", token.NoPos, "anchor not found")
+	// repair triggers: every call of steal / merge anywhere in the package
+	for _, fn := range c.funcsOfPkg(treeRel) {
+		if fn.Blocks == nil {
 			continue
 		}
+		name := fn.Name()
 		k := 0
 		instrs(fn, func(b *ssa.BasicBlock, i int, in ssa.Instruction) {
 			call, ok := in.(*ssa.Call)
@@ -195,52 +194,16 @@ func ruleTreeThresholds(c *Ctx, r *R) {
 				return
 			}
 			cal := staticCallee(&call.Call)
-			if cal == nil || (cal.Name() != "steal" && cal.Name() != "merge") {
+			if cal == nil || (cal.Name() != "steal" && cal.Name() != "merge") || len(call.Call.Args) < 2 {
+				return
+			}
+			if cal.Signature.Recv() == nil || !isNamedType(cal.Signature.Recv().Type(), treeRel, "btree") {
 				return
 			}
 			k++
 			x := call.Call.Args[1]
-			xp := path(x)
-			good := false
-			var gs []guard
-			gs = append(gs, guardsOf(b)...)
-			for _, g := range gs {
-				cf, ok := g.asCmp()
-				if !ok {
-					continue
-				}
-				if v, okc := evalConst(cf.y, 0); okc && v == mn && cf.op == token.LSS && strings.TrimSuffix(path(cf.x), ".n") == xp {
-					good = true
-				}
-			}
-			// short-circuit forms: `curr.n >= minKVs || t.steal(curr)`: the steal call block is the false successor of n >= minKVs
-			for _, p := range b.Preds {
-				if iff, ok := p.Instrs[len(p.Instrs)-1].(*ssa.If); ok {
-					g := guard{cond: iff.Cond, val: p.Succs[0] == b}
-					if cf, ok := g.asCmp(); ok {
-						if v, okc := evalConst(cf.y, 0); okc && v == mn && cf.op == token.LSS && strings.TrimSuffix(path(cf.x), ".n") == xp && len(b.Preds) == 1 {
-							good = true
-						}
-					}
-				}
-			}
-			// through removeRightmost: x is its third result, tested != nil
-			if !good {
-				v := x
-				if phi, ok := v.(*ssa.Phi); ok {
-					// leaf = curr (under-full leaf case) or removeRightmost's result
-					allOK := true
-					for _, e := range phi.Edges {
-						if !underfullOrigin(c, e, mn) {
-							allOK = false
-						}
-					}
-					good = allOK
-				} else {
-					good = underfullOrigin(c, v, mn)
-				}
-			}
-			r.ok(good, "tree.btree."+name+"|repair-trigger:"+cal.Name()+"#"+itoa(k), call.Pos(), cal.Name()+"("+xp+") must be reached only for a node known to have n < minKVs")
+			good := underfullAt(c, x, b, mn, 0, map[ssa.Value]bool{})
+			r.ok(good, "tree.btree."+name+"|repair-trigger:"+cal.Name()+"#"+itoa(k), call.Pos(), cal.Name()+"("+path(x)+") must be reached only for a node known to have n < minKVs (established by a guard here, at the place the node value was produced, or at every call site)")
 		})
 	}
 	if mg := bt(c, "merge"); mg != nil {
@@ -266,6 +229,129 @@ func ruleTreeThresholds(c *Ctx, r *R) {
 }
 
 func nil2(c *Ctx) *Ctx { return c }
+
+// underfullAt: is node value v known to satisfy v.n < minKVs when control is in block b? Sources of knowledge: a guard that
+// dominates b (or the short-circuit edge into b); v merges values each of which is known under-full where it is produced
+// (nil alternatives are ignored: they are excluded by the caller's nil test or crash at once); v is the result of a helper
+// whose non-nil results are under-full at their return; v is a parameter of an unexported helper and every call site passes an
+// under-full node.
+func underfullAt(c *Ctx, v ssa.Value, b *ssa.BasicBlock, mn int64, depth int, seen map[ssa.Value]bool) bool {
+	if depth > 6 || seen[v] {
+		return false
+	}
+	seen[v] = true
+	defer delete(seen, v)
+	if isNilConst(v) {
+		return true
+	}
+	vp := valueProv(v, provEnv{}).String()
+	sameNode := func(x ssa.Value) bool {
+		// x is <node>.n
+		ld, ok := resolveVal(x).(*ssa.UnOp)
+		if !ok {
+			return false
+		}
+		fa, ok := ld.X.(*ssa.FieldAddr)
+		if !ok || fieldName(fa.X.Type(), fa.Field) != "n" {
+			return false
+		}
+		return fa.X == v || resolveVal(fa.X) == resolveVal(v) || valueProv(fa.X, provEnv{}).String() == vp
+	}
+	var gs []guard
+	gs = append(gs, guardsOf(b)...)
+	if len(b.Preds) == 1 {
+		gs = append(gs, edgeGuard(b.Preds[0], b)...)
+	}
+	for _, g := range gs {
+		cf, ok := g.asCmp()
+		if !ok {
+			continue
+		}
+		x, y, op := cf.x, cf.y, cf.op
+		if sameNode(y) {
+			x, y, op = y, x, flip(op)
+		}
+		if !sameNode(x) {
+			continue
+		}
+		if k, okc := evalConst(y, 0); okc && ((op == token.LSS && k <= mn) || (op == token.LEQ && k < mn)) {
+			return true
+		}
+	}
+	switch x := v.(type) {
+	case *ssa.Phi:
+		for i, e := range x.Edges {
+			if !underfullAt(c, e, x.Block().Preds[i], mn, depth+1, seen) {
+				return false
+			}
+		}
+		return len(x.Edges) > 0
+	case *ssa.Extract:
+		if call, ok := x.Tuple.(*ssa.Call); ok {
+			return underfullResult(c, call, x.Index, mn, depth, seen)
+		}
+	case *ssa.Call:
+		return underfullResult(c, x, 0, mn, depth, seen)
+	case *ssa.UnOp:
+		// a local variable: every stored value
+		if cell, ok := x.X.(*ssa.Alloc); ok && x.Op == token.MUL {
+			sts := storesTo(cell)
+			if len(sts) == 0 {
+				return false
+			}
+			for _, st := range sts {
+				if !underfullAt(c, st.Val, st.Block(), mn, depth+1, seen) {
+					return false
+				}
+			}
+			return true
+		}
+	case *ssa.Parameter:
+		fn := x.Parent()
+		if token.IsExported(fn.Name()) || fn.Parent() != nil {
+			return false
+		}
+		pi := -1
+		for i, p := range fn.Params {
+			if p == x {
+				pi = i
+			}
+		}
+		sites := callSitesOf(c, fn)
+		if pi < 0 || len(sites) == 0 {
+			return false
+		}
+		for _, site := range sites {
+			if pi >= len(site.Call.Args) || !underfullAt(c, site.Call.Args[pi], site.Block(), mn, depth+1, seen) {
+				return false
+			}
+		}
+		return true
+	}
+	return false
+}
+
+func underfullResult(c *Ctx, call *ssa.Call, idx int, mn int64, depth int, seen map[ssa.Value]bool) bool {
+	cal := staticCallee(&call.Call)
+	if cal == nil || cal.Blocks == nil {
+		return false
+	}
+	n := 0
+	good := true
+	instrs(cal, func(b *ssa.BasicBlock, i int, in ssa.Instruction) {
+		ret, ok := in.(*ssa.Return)
+		if !ok || idx >= len(ret.Results) {
+			return
+		}
+		n++
+		rv := ret.Results[idx]
+		// named results are spilled: the Return loads the result variable
+		if !underfullAt(c, rv, b, mn, depth+1, seen) {
+			good = false
+		}
+	})
+	return good && n > 0
+}
 
 // underfullOrigin: v is a node value established to be under-full: removeRightmost's third result (assigned only
 // under curr.n < minKVs), or a node tested n < minKVs on the way.
@@ -333,6 +419,32 @@ func underfullOrigin(c *Ctx, v ssa.Value, mn int64) bool {
 	return found
 }
 
+// onlyReachedFrom: fn is root, or an unexported function all of whose call sites lie in functions only reached from root.
+func onlyReachedFrom(c *Ctx, fn, root *ssa.Function, depth int) bool {
+	if fn == nil || root == nil {
+		return false
+	}
+	if origin(fn) == origin(root) {
+		return true
+	}
+	if depth > 4 || token.IsExported(fn.Name()) && fn.Signature.Recv() == nil {
+		return false
+	}
+	if fn.Parent() != nil {
+		return onlyReachedFrom(c, fn.Parent(), root, depth+1)
+	}
+	sites := callSitesOf(c, fn)
+	if len(sites) == 0 {
+		return false
+	}
+	for _, s := range sites {
+		if !onlyReachedFrom(c, s.Parent(), root, depth+1) {
+			return false
+		}
+	}
+	return true
+}
+
 func refsOf(v ssa.Value) []ssa.Instruction {
 	if v.Referrers() == nil {
 		return nil
@@ -369,14 +481,14 @@ func ruleTreeSize(c *Ctx, r *R) {
 				r.ok(isConstInt(st.Val, 0), name+"|size-init", st.Pos(), "a new tree starts with size 0")
 				return
 			}
-			okW := (strings.HasSuffix(name, "btree.Put") && inc(in)) || (strings.HasSuffix(name, "btree.Delete") && dec(in))
-			r.ok(okW, name+"|writes-size", st.Pos(), "size may only be incremented by Put and decremented by Delete")
+			okW := (inc(in) && onlyReachedFrom(c, fn, bt(c, "Put"), 0)) || (dec(in) && onlyReachedFrom(c, fn, bt(c, "Delete"), 0))
+			r.ok(okW, name+"|writes-size", st.Pos(), "size may only be incremented by Put and decremented by Delete (or helpers called only from them)")
 		})
 	}
 	put := bt(c, "Put")
 	if put != nil {
 		// inserting paths: those that call insertIntoLeaf / overfill
-		pf := &PF{N: 8} // bit0..1 = count of size++ (0,1,2+), bit2 = inserted
+		pf := &PF{N: 8, InScope: func(f *ssa.Function) bool { return f.Pkg == put.Pkg && f.Blocks != nil && f != put }} // bit0..1 = count of size++ (0,1,2+), bit2 = inserted
 		pf.Instr = func(f *ssa.Function, in ssa.Instruction, q int) (StateSet, bool) {
 			cnt := q & 3
 			ins := q & 4
@@ -387,7 +499,7 @@ func ruleTreeSize(c *Ctx, r *R) {
 				return ss(cnt | ins), true
 			}
 			if call, ok := in.(*ssa.Call); ok {
-				if cal := staticCallee(&call.Call); cal != nil && (cal.Name() == "insertIntoLeaf" || cal.Name() == "overfill") {
+				if cal := staticCallee(&call.Call); cal != nil && (cal.Name() == "insertIntoLeaf" || cal.Name() == "overfill" || cal.Name() == "insertOne") {
 					return ss(cnt | 4), true
 				}
 			}
@@ -412,7 +524,9 @@ func ruleTreeSize(c *Ctx, r *R) {
 	del := bt(c, "Delete")
 	if del != nil {
 		// removal events: removeOne on keys or removeRightmost call
-		pf := &PF{N: 8}
+		pf := &PF{N: 8, InScope: func(f *ssa.Function) bool {
+			return f.Pkg == del.Pkg && f.Blocks != nil && f != del && f.Name() != "removeRightmost" && f.Name() != "removeOne" && f.Name() != "steal" && f.Name() != "merge"
+		}}
 		pf.Instr = func(f *ssa.Function, in ssa.Instruction, q int) (StateSet, bool) {
 			cnt := q & 3
 			rem := q & 4
@@ -484,12 +598,16 @@ func ruleTreeShrinkZero(c *Ctx, r *R) {
 		r.undecided("tree.removeOne|missing", token.NoPos, "anchor not found")
 	}
 	type inst struct{ fn, node string }
-	for _, is := range []inst{{"Delete", "curr"}, {"removeRightmost", "curr"}, {"rotateRight", "left"}, {"rotateLeft", "right"}, {"mergeTwo", "parent"}, {"overfill", "x"}} {
-		fn := bt(c, is.fn)
-		if fn == nil {
-			r.undecided("tree.btree."+is.fn+"|missing", token.NoPos, "anchor not found")
+	total := 0
+	for _, fn := range c.funcsOfPkg(treeRel) {
+		if fn.Blocks == nil {
 			continue
 		}
+		short := c.nameOf(fn)
+		if i := strings.LastIndex(short, "."); i >= 0 {
+			short = short[i+1:]
+		}
+		is := inst{fn: short}
 		// stores that lower X.n
 		k := 0
 		instrs(fn, func(b *ssa.BasicBlock, i int, in ssa.Instruction) {
@@ -509,8 +627,11 @@ func ruleTreeShrinkZero(c *Ctx, r *R) {
 			if bin, ok := st.Val.(*ssa.BinOp); ok && bin.Op == token.SUB && path(bin.X) == xp+".n" {
 				lowers = true
 			}
-			if v, ok := evalConst(st.Val, 0); ok && is.fn == "overfill" && v > 0 {
-				lowers = true // left.n = medianIdx
+			isSplit := false
+			if v, ok := evalConst(st.Val, 0); ok && v > 1 {
+				// X.n = <positive constant> on a node that was full: the split (left.n = medianIdx)
+				lowers = true
+				isSplit = true
 			}
 			if !lowers {
 				return
@@ -565,15 +686,14 @@ func ruleTreeShrinkZero(c *Ctx, r *R) {
 			if movesChild && !zero["children"] {
 				missing = append(missing, "children (a child pointer was moved to another node but stays referenced here)")
 			}
-			if is.fn == "overfill" && !zero["children"] {
+			if isSplit && !zero["children"] {
 				missing = append(missing, "children")
 			}
 			r.ok(len(missing) == 0, key, st.Pos(), xp+" loses an entry but its vacated slot(s) in "+strings.Join(missing, ", ")+" are not cleared on this path: the deleted/moved key, value or subtree stays reachable from the live structure")
 		})
-		if k == 0 {
-			r.violated("tree.btree."+is.fn+"|n-lowered", fn.Pos(), "expected "+is.node+".n to be lowered here")
-		}
+		total += k
 	}
+	r.ok(total >= 4, "tree|n-lowering-sites", token.NoPos, "expected the package to lower a node's n in Delete, removeRightmost, the two rotations, mergeTwo and the split (found "+itoa(total)+" sites)")
 }
 
 func ruleTreeSearchCost(c *Ctx, r *R) {
